@@ -956,6 +956,10 @@ void reb_integrator_whfast_debug_operator_interaction(struct reb_simulation* con
 }
 
 void reb_integrator_whfast_part1(struct reb_simulation* const r){
+    if (r->N==0){ // Nothing to integrate (all particles removed). The coordinate transformations assume N>0.
+        r->t+=r->dt/2.;
+        return;
+    }
     struct reb_integrator_whfast* const ri_whfast = &(r->ri_whfast);
     struct reb_particle* restrict const particles = r->particles;
     const int N = r->N;
@@ -1027,6 +1031,7 @@ void reb_integrator_whfast_part1(struct reb_simulation* const r){
 }
 
 void reb_integrator_whfast_synchronize(struct reb_simulation* const r){
+    if (r->N==0) return;
     struct reb_integrator_whfast* const ri_whfast = &(r->ri_whfast);
     if (reb_integrator_whfast_init(r)){
         // Non recoverable error occured.
@@ -1089,6 +1094,11 @@ void reb_integrator_whfast_synchronize(struct reb_simulation* const r){
 }
 
 void reb_integrator_whfast_part2(struct reb_simulation* const r){
+    if (r->N==0){
+        r->t+=r->dt/2.;
+        r->dt_last_done = r->dt;
+        return;
+    }
     struct reb_integrator_whfast* const ri_whfast = &(r->ri_whfast);
     struct reb_particle* restrict const particles = r->particles;
     struct reb_particle* const p_j = ri_whfast->p_jh;
